@@ -276,6 +276,124 @@ theorem C17_v1_roundtrip_no_profit {env : Env} (he : EnvPos env) {s s1 s2 : Stat
     _ = af := by field_simp
     _ ≤ a := haf1
 
+/-! ### round trip with the sale split into pieces -/
+
+/-- what buying costs per share: the GLP minted, at value per share, is worth at most the tokens paid -/
+theorem Gmx.buy_ge_value {env : Env} (he : EnvPos env) {s s' : State} {tok : String} {dec : Nat} {a g : Rat}
+    (h : buyGlp NumCtx.exact env s tok dec a = (.ok g, s')) :
+    ∃ r, env.row? tok = some r ∧ g * (aumU env / env.glpSupply) ≤ a * (r.price / 10 ^ 30) := by
+  obtain ⟨ha, _⟩ := Gmx.buyGlp_ok h
+  obtain ⟨r, fee, br, usdg, hr, _, hf0, _, ⟨hu, _⟩, hg, _⟩ := C17_v1_mint_value_per_share he h
+  refine ⟨r, hr, ?_⟩
+  have hP : 0 < r.price := he.price r (row_mem hr)
+  have hS := he.glpSupply
+  have hp : 0 < r.price / 10 ^ 30 := by positivity
+  rcases (Gmx.aumU_nonneg he).lt_or_eq with hA | hA
+  · -- g·10¹⁸·A/S ≤ usdg ≤ (a − a·fee/10⁴)·p·10¹⁸ ≤ a·p·10¹⁸
+    have h1 : g * 10 ^ 18 * (aumU env / env.glpSupply) ≤ usdg := by
+      have : g * 10 ^ 18 * (aumU env / env.glpSupply) ≤ usdg * env.glpSupply / aumU env * (aumU env / env.glpSupply) :=
+        mul_le_mul_of_nonneg_right hg (by positivity)
+      calc g * 10 ^ 18 * (aumU env / env.glpSupply) ≤ usdg * env.glpSupply / aumU env * (aumU env / env.glpSupply) := this
+        _ = usdg := by field_simp
+    have h2 : (a - a * fee / 10000) * (r.price / 10 ^ 30) * 10 ^ 18 ≤ a * (r.price / 10 ^ 30) * 10 ^ 18 := by
+      have : a - a * fee / 10000 ≤ a := by
+        have : 0 ≤ a * fee / 10000 := by positivity
+        linarith
+      exact mul_le_mul_of_nonneg_right (mul_le_mul_of_nonneg_right this (le_of_lt hp)) (by positivity)
+    have h3 : g * (aumU env / env.glpSupply) * 10 ^ 18 ≤ a * (r.price / 10 ^ 30) * 10 ^ 18 := by
+      calc g * (aumU env / env.glpSupply) * 10 ^ 18 = g * 10 ^ 18 * (aumU env / env.glpSupply) := by ring
+        _ ≤ usdg := h1
+        _ ≤ _ := hu
+        _ ≤ _ := h2
+    exact le_of_mul_le_mul_right h3 (by positivity)
+  · rw [← hA]; simp only [zero_div, mul_zero]; positivity
+
+/-- what selling pays per share: redeeming `g'` GLP pays at most `g' × value per share / price`, whatever the holding,
+    the fee branch and the state -/
+theorem Gmx.sell_le_value {env : Env} (he : EnvPos env) {s s' : State} {tok : String} {dec : Nat} {g' out : Rat} (hg' : 0 < g')
+    (h : sellGlp NumCtx.exact env s tok dec g' = (.ok out, s')) :
+    ∃ r, env.row? tok = some r ∧ out * (r.price / 10 ^ 30) ≤ g' * (aumU env / env.glpSupply) := by
+  have hne : g' ≠ 0 := ne_of_gt hg'
+  have := C17_v1_redeem_value_per_share he h
+  simp only [hne, if_false] at this
+  obtain ⟨r, fee, br, U, hr, _, hf0, hf1, hU, _, hout⟩ := this
+  refine ⟨r, hr, ?_⟩
+  have hP : 0 < r.price := he.price r (row_mem hr)
+  have hp : 0 < r.price / 10 ^ 30 := by positivity
+  have hV : 0 ≤ aumU env / env.glpSupply := div_nonneg (Gmx.aumU_nonneg he) (le_of_lt he.glpSupply)
+  have hk0 : 0 ≤ 1 - fee / 10000 := by linarith
+  have hk1 : 1 - fee / 10000 ≤ 1 := by linarith
+  have e : out * (r.price / 10 ^ 30) = U / 10 ^ 18 * (1 - fee / 10000) := by
+    rw [hout]; field_simp
+  rw [e]
+  by_cases hU0 : 0 ≤ U
+  · calc U / 10 ^ 18 * (1 - fee / 10000) ≤ U / 10 ^ 18 * 1 := mul_le_mul_of_nonneg_left hk1 (by positivity)
+      _ = U / 10 ^ 18 := mul_one _
+      _ ≤ g' * 10 ^ 18 * (aumU env / env.glpSupply) / 10 ^ 18 := div_le_div_of_nonneg_right hU (by positivity)
+      _ = g' * (aumU env / env.glpSupply) := by field_simp
+  · have : U / 10 ^ 18 * (1 - fee / 10000) ≤ 0 := by
+      apply mul_nonpos_of_nonpos_of_nonneg _ hk0
+      apply div_nonpos_of_nonpos_of_nonneg (le_of_lt (not_le.mp hU0)) (by positivity)
+    have : 0 ≤ g' * (aumU env / env.glpSupply) := by positivity
+    linarith
+
+/-- sell the pieces one after the other in the same bar; `none` if one of the sales is rejected -/
+def Gmx.sellPieces (env : Env) (tok : String) (dec : Nat) : State → List Rat → Option (Rat × State)
+  | s, [] => some (0, s)
+  | s, p :: ps =>
+    match sellGlp NumCtx.exact env s tok dec p with
+    | (.ok out, s') => (Gmx.sellPieces env tok dec s' ps).map (fun x => (out + x.1, x.2))
+    | (.error _, _) => none
+
+theorem Gmx.sellPieces_le_value {env : Env} (he : EnvPos env) {tok : String} {dec : Nat} {r : TokenRow} (hr : env.row? tok = some r)
+    (pieces : List Rat) (hpos : ∀ p ∈ pieces, 0 < p) (s s2 : State) (total : Rat)
+    (h : Gmx.sellPieces env tok dec s pieces = some (total, s2)) :
+    total * (r.price / 10 ^ 30) ≤ pieces.sum * (aumU env / env.glpSupply) := by
+  induction pieces generalizing s total with
+  | nil => simp only [Gmx.sellPieces, Option.some.injEq, Prod.mk.injEq] at h; rw [← h.1]; simp
+  | cons p ps ih =>
+    unfold Gmx.sellPieces at h
+    cases hs : sellGlp NumCtx.exact env s tok dec p with
+    | mk res s' =>
+      rw [hs] at h
+      cases res with
+      | error e => simp at h
+      | ok out =>
+        simp only [] at h
+        cases hrest : Gmx.sellPieces env tok dec s' ps with
+        | none => rw [hrest] at h; simp at h
+        | some x =>
+          rw [hrest] at h
+          simp only [Option.map_some, Option.some.injEq, Prod.mk.injEq] at h
+          obtain ⟨rfl, rfl⟩ := h
+          obtain ⟨r', hr', h1⟩ := Gmx.sell_le_value he (hpos p (List.mem_cons_self ..)) hs
+          rw [hr] at hr'; cases hr'
+          have h2 := ih (fun q m => hpos q (List.mem_cons_of_mem _ m)) s' x.1 (by rw [hrest])
+          rw [List.sum_cons]
+          calc (out + x.1) * (r.price / 10 ^ 30) = out * (r.price / 10 ^ 30) + x.1 * (r.price / 10 ^ 30) := by ring
+            _ ≤ p * (aumU env / env.glpSupply) + ps.sum * (aumU env / env.glpSupply) := add_le_add h1 h2
+            _ = (p + ps.sum) * (aumU env / env.glpSupply) := by ring
+
+/-- **same-bar round trip, sold in pieces**: buy GLP with `a` tokens, then redeem it for the same token in ANY number of
+    partial sales of any positive sizes adding up to at most the minted amount (other holdings may be in the account:
+    the bound does not depend on the state): the tokens received in total never exceed `a`. -/
+theorem C17_v1_roundtrip_in_pieces_no_profit {env : Env} (he : EnvPos env) {s s1 s2 : State} {tok : String} {dec : Nat}
+    {a g total : Rat} (pieces : List Rat)
+    (hbuy : buyGlp NumCtx.exact env s tok dec a = (.ok g, s1))
+    (hpos : ∀ p ∈ pieces, 0 < p) (hsum : pieces.sum ≤ g)
+    (hsell : Gmx.sellPieces env tok dec s1 pieces = some (total, s2)) :
+    total ≤ a := by
+  obtain ⟨r, hr, hb⟩ := Gmx.buy_ge_value he hbuy
+  have hs := Gmx.sellPieces_le_value he hr pieces hpos s1 s2 total hsell
+  have hP : 0 < r.price := he.price r (row_mem hr)
+  have hp : 0 < r.price / 10 ^ 30 := by positivity
+  have hV : 0 ≤ aumU env / env.glpSupply := div_nonneg (Gmx.aumU_nonneg he) (le_of_lt he.glpSupply)
+  have : total * (r.price / 10 ^ 30) ≤ a * (r.price / 10 ^ 30) :=
+    calc total * (r.price / 10 ^ 30) ≤ pieces.sum * (aumU env / env.glpSupply) := hs
+      _ ≤ g * (aumU env / env.glpSupply) := mul_le_mul_of_nonneg_right hsum hV
+      _ ≤ a * (r.price / 10 ^ 30) := hb
+  exact le_of_mul_le_mul_right this hp
+
 /-! ### rewards accrue pro rata to the share of supply -/
 
 /-- **reward accrual**: one bar adds `interval × 60 × held / supply` to the pending reward (and nothing else changes);
@@ -411,5 +529,9 @@ example : (update NumCtx.exact Gmx.demoEnv { Gmx.demoState with glp := 8 }).1 = 
 
 /-- selling more than held is rejected -/
 example : (sellGlp NumCtx.exact Gmx.demoEnv { Gmx.demoState with glp := 8 } "weth" 18 80).1 = .error .demeter := by decide +kernel
+
+/-- the demo round trip sold in two pieces (1000 + 597.92 GLP): both sales accepted, 0.99500…WETH in total < 1 paid -/
+example : ((Gmx.sellPieces Gmx.demoEnv "weth" 18 (buyGlp NumCtx.exact Gmx.demoEnv Gmx.demoState "weth" 18 1).2 [1000, 14948 / 25]).map (·.1)).isSome = true := by
+  decide +kernel
 
 end Demeter
